@@ -19,8 +19,41 @@ from cbv import specs
 bk = specs.ConcBk
 
 
+# amplitude pattern of the random inputs (cfg['amp']): the linear transforms must be exact at every scale and on
+# inputs with exactly-zero regions - value-dependent shortcuts (thresholds, "empty band" tests) show up here
+AMP = {'name': 'unit', 'scale': 1.0}
+AMPS = {'unit': 1.0, 'tiny': 1e-9, 'huge': 1e7, 'sparse': 1.0}
+
+
+def _shape_amp(a, rs):
+    if AMP['name'] == 'sparse':
+        m = rs.uniform(size=a.shape) < 0.8
+        a = np.where(m, 0.0, a)
+        if a.ndim >= 2 and a.shape[-1] > 1:          # and whole rows / trailing blocks exactly zero
+            a[..., a.shape[-1] // 2:] = 0.0
+        return a
+    return a * AMP['scale']
+
+
+LINEAR_FNS = ('afb1d', 'sfb1d', 'dwt_forward', 'dwt_inverse', 'dwt_grad', 'slices', 'nonsep', 'dwt_pr', 'dwt_orth', 'swt_forward',
+              'dtcwt_forward', 'dtcwt_inverse', 'dtcwt_pr', 'dtcwt_grad')
+
+
+class RState:
+    """np.random.RandomState whose randn() follows the amplitude pattern"""
+    def __init__(s, seed=None):
+        s.rs = np.random.RandomState(seed)
+
+    def randn(s, *shape):
+        return _shape_amp(s.rs.randn(*shape), s.rs)
+
+    def __getattr__(s, k):
+        return getattr(s.rs, k)
+
+
 def _rand(rnd, *shape):
     a = np.array([rnd.uniform(-1, 1) for _ in range(int(np.prod(shape)))]).reshape(shape)
+    a = _shape_amp(a, np.random.RandomState(rnd.randint(0, 10**6))) if AMP['name'] != 'unit' else a
     return torch.tensor(a)
 
 
@@ -32,7 +65,7 @@ def _close(a, b, tol=1e-9):
     if a.size == 0:
         return True, ''
     err = float(np.abs(a - b).max())
-    return err <= tol * (1 + float(np.abs(b).max())), 'max abs err %.3g' % err
+    return err <= tol * (AMP['scale'] + float(np.abs(b).max())), 'max abs err %.3g' % err
 
 
 def _sz(sizes, k, default, lo=1, hi=40):
@@ -153,6 +186,8 @@ def register(name):
 
 def run_one(fn, cfg, sizes, seed):
     rnd = random.Random(seed)
+    amp = cfg.get('amp', 'unit') if isinstance(cfg, dict) else 'unit'
+    AMP['name'], AMP['scale'] = amp, AMPS[amp]
     try:
         ok, det = CHECKS[fn](cfg, sizes, rnd)
     except Exception as e:
